@@ -334,7 +334,9 @@ class Interp:
         r = self._get_runner(p)
         t = num(op["t"]) if op.get("t") is not None else None
         x = np.array([num(v) for v in op["x"]], dtype=float) if op.get("x") is not None else None
-        if x is not None:
+        if x is not None and op.get("x_dtype") == "int":
+            x = np.array([int(num(v)) for v in op["x"]], dtype=np.int64)       # a state given as whole numbers (counts of people), as an integer array
+        elif x is not None:
             x = jnp.array(x)
         st = r.impl_dict["one_step"](p, t, x)
         out = {
